@@ -749,6 +749,63 @@ func (e *Exec) exec1(op string, pos []string, kv map[string]string, line string)
 		}
 		w.bindTx(t)
 		return "-"
+	case "race2":
+		// DoTx(b) is executed while DoTx(a) is about to write its batch (a deterministic point of a concurrent schedule)
+		ta, tb := w.Txs[atoi(pos[0])], w.Txs[atoi(pos[1])]
+		var errB error
+		fired := false
+		kvmem.SetBeforeWrite(func(store string) {
+			if !strings.HasSuffix(store, "/utxoVM") {
+				return
+			}
+			fired = true
+			c := *tb.Tx
+			errB = w.Main.S.DoTx(&c)
+		})
+		ca := *ta.Tx
+		errA := w.Main.S.DoTx(&ca)
+		kvmem.ClearHooks()
+		if !fired {
+			c := *tb.Tx
+			errB = w.Main.S.DoTx(&c)
+		}
+		if errA == nil {
+			e.pool = append(e.pool, ta.Idx)
+		}
+		if errB == nil {
+			e.pool = append(e.pool, tb.Idx)
+		}
+		e.checkPool(line)
+		e.checkState(line)
+		return errEnum(errA) + "," + errEnum(errB)
+	case "balrace":
+		// GetBalance of a cold address overlaps an admission: the tx lands right after the balance scan took its snapshot
+		t := w.Txs[atoi(pos[1])]
+		addr := w.AddrOf[pos[0]]
+		w.Main.S.ClearCache()
+		var errT error
+		fired := false
+		kvmem.SetOnIter(func(store, prefix string) {
+			if fired || !strings.HasSuffix(store, "/utxoVM") || !strings.HasPrefix(prefix, pb.UTXOTablePrefix+addr) {
+				return
+			}
+			fired = true
+			kvmem.ClearHooks()
+			c := *t.Tx
+			errT = w.Main.S.DoTx(&c)
+		})
+		w.Main.S.GetBalance(addr)
+		kvmem.ClearHooks()
+		if !fired {
+			c := *t.Tx
+			errT = w.Main.S.DoTx(&c)
+		}
+		if errT == nil {
+			e.pool = append(e.pool, t.Idx)
+		}
+		e.checkPool(line)
+		e.checkState(line)
+		return errEnum(errT)
 	case "atx":
 		// a generated (autogen) transaction carrying only a read / write set, as the timer task produces them
 		t := &TxInfo{From: "-", Autogen: true, KIn: parseKIn(kv["kin"]), KOut: parseKOut(kv["kout"])}
